@@ -35,10 +35,10 @@ func (r *Rng) Intn(n int) int {
 	}
 	return int(r.U64() % uint64(n))
 }
-func (r *Rng) Range(lo, hi int) int { return lo + r.Intn(hi-lo+1) }
-func (r *Rng) Bool() bool           { return r.U64()&1 == 1 }
+func (r *Rng) Range(lo, hi int) int     { return lo + r.Intn(hi-lo+1) }
+func (r *Rng) Bool() bool               { return r.U64()&1 == 1 }
 func (r *Rng) Chance(num, den int) bool { return r.Intn(den) < num }
-func (r *Rng) Fork() *Rng           { return NewRng(r.U64()) }
+func (r *Rng) Fork() *Rng               { return NewRng(r.U64()) }
 func (r *Rng) Bytes(n int) []byte {
 	b := make([]byte, n)
 	for i := range b {
@@ -122,21 +122,21 @@ type Violation struct {
 }
 
 type Result struct {
-	Property      string            `json:"property"`
-	Tier          string            `json:"tier"`
-	Seed          uint64            `json:"seed"`
-	Evaluations   int               `json:"evaluations"`
-	DistinctNT    int               `json:"distinct_nontrivial"`
-	Rule          string            `json:"rule"`
-	Samples       []string          `json:"samples"`
-	Histogram     map[string]int    `json:"histogram"`
-	Disagreements []Disagreement    `json:"disagreements"`
-	NDisagree     int               `json:"n_disagreements"`
-	Violations    []Violation       `json:"violations"`
-	Extra         map[string]any    `json:"extra,omitempty"`
-	Notes         []string          `json:"notes,omitempty"`
-	WallS         float64           `json:"wall_s"`
-	NViolations   int               `json:"n_violations"`
+	Property      string         `json:"property"`
+	Tier          string         `json:"tier"`
+	Seed          uint64         `json:"seed"`
+	Evaluations   int            `json:"evaluations"`
+	DistinctNT    int            `json:"distinct_nontrivial"`
+	Rule          string         `json:"rule"`
+	Samples       []string       `json:"samples"`
+	Histogram     map[string]int `json:"histogram"`
+	Disagreements []Disagreement `json:"disagreements"`
+	NDisagree     int            `json:"n_disagreements"`
+	Violations    []Violation    `json:"violations"`
+	Extra         map[string]any `json:"extra,omitempty"`
+	Notes         []string       `json:"notes,omitempty"`
+	WallS         float64        `json:"wall_s"`
+	NViolations   int            `json:"n_violations"`
 	perVerb       map[string]int
 	mu            sync.Mutex
 }
@@ -385,6 +385,9 @@ func Execute(p Prop, driverPath string, seed uint64, tier string, replay []strin
 		}
 		if hasBr {
 			res.Histogram[br.Branch(l, goOuts[i])]++
+			if strings.HasPrefix(l, "cli") {
+				res.Histogram["(through the command-line binary)"]++
+			}
 		}
 		agree := goOuts[i] == modelOuts[i]
 		if hasCmp {
